@@ -214,9 +214,16 @@ def _pairs(j, est, T, arg, idx, ds, rng, det, key):
               est.threshold_ == float(arg_), dict(det, t=arg_,
                                                   stored=est.threshold_))
     thr = est.threshold_
-    D2 = est.pair_distance(T)
-    pred = est.predict(T)
-    dec = est.decision_function(T)
+    try:
+      D2 = est.pair_distance(T)
+      pred = est.predict(T)
+      dec = est.decision_function(T)
+    except Exception as e:
+      # a threshold has been set: every classifier method must answer
+      j.violated('C04.pairs.predict',
+                 dict(det, state=label, thr=thr, raised=repr(e)[:200]),
+                 mechanism='pairs-classifier-raised-' + type(e).__name__)
+      continue
     j.check('C04.pairs.predict',
             np.array_equal(pred, np.where(D2 <= thr, 1, -1)),
             dict(det, state=label, thr=thr))
